@@ -1244,7 +1244,12 @@ func (sf *SourceFile) UnmarshalBinary(data []byte) error {
 		return err
 	}
 
-	sf.Name = obj.String()
+	name, ok := obj.(ugo.String)
+	if !ok {
+		return fmt.Errorf("invalid source file name type %s", obj.TypeName())
+	}
+
+	sf.Name = string(name)
 	var vi varintConv
 	vi.reader = rd
 	v, err := vi.read()
